@@ -830,7 +830,7 @@ def _adv_setitem(t, index, value, accumulate=None):
     arange over dim 0 (the `x[rng, a] = v` idiom): element (b, a[b]) gets v[b].
     """
     ctx = cur()
-    if not all(T(i) for i in index):
+    if not all(T(i) or (isinstance(i, int) and not isinstance(i, bool)) for i in index) or not T(index[0]):
         raise Unsupported("advanced setitem with mixed indices")
     if len(index) != t.rank:
         raise Unsupported("advanced setitem must index all dims")
@@ -840,11 +840,18 @@ def _adv_setitem(t, index, value, accumulate=None):
     if not ctx.same(first.shape[0], t.shape[0]):
         ctx.wf("advset-arange-len", zint(first.shape[0]) == zint(t.shape[0]))
     others = index[1:]
+    osn = []
     for k, o in enumerate(others):
+        if isinstance(o, int):
+            # a plain integer position (negative = from the end) broadcasts against the index tensors
+            pos = o if o >= 0 else simp_add(t.shape[k + 1], o)
+            ctx.wf(f"advset-dim{k + 1}-int-in-range", AND(zint(pos) >= 0, zint(pos) < zint(t.shape[k + 1])))
+            osn.append(lambda I, pos=pos: pos)
+            continue
         if o.rank != 1:
             raise Unsupported("advanced setitem index rank")
         _wf_index_range(o, t.shape[k + 1], f"advset-dim{k + 1}")
-    osn = [o.snap() for o in others]
+        osn.append(o.snap())
     if T(value):
         vs = value.snap()
         vshape = value.shape
